@@ -1308,3 +1308,14 @@ def run(idx, rep, tier):
     r12(k)
     r13(k)
     r14(k)
+    # C05.R15: shared rule
+    from .c06 import r1 as _c06r1
+    rep.rule('C05.R15', 'receive gate (= rows of C06.R1): connection-protocol messages (80+) are rejected until authentication is complete, whatever the other auth flags say - a client that never requests ssh-userauth gets no channel, request or forward served')
+    _before = len(rep.obligations)
+    _c06r1(k)
+    _kept = [o for o in rep.obligations[_before:] if 'auth' in o.key or '80+' in o.key or 'channel' in o.key]
+    del rep.obligations[_before:]
+    rep.obligations.extend(_kept)
+    rep.floor('C05.R15', 'shared rows', len(_kept), 1)
+    for o in rep.obligations[_before:]:
+        o.rule = 'C05.R15'
